@@ -134,6 +134,8 @@ def gen_inputs(f, contract, module, count=12, scope=3, seed=0, timeout_ms=4000):
             elif pt.kind == "float":
                 prefs.append(ex.vars[pn].t == z3.RealVal(repr(rng.choice(FLOAT_POOL))))
         eprefs = []
+        # most cases draw the float elements from a pool of three values: ties and equal neighbours are frequent
+        fpool = rng.sample(FLOAT_POOL, 3) if rng.random() < 0.7 else FLOAT_POOL
         for pn, a in arrs:
             isf = a.elem is not None and a.elem.kind == "float"
             for idx in _indices([S] * a.ndim):
@@ -141,7 +143,7 @@ def gen_inputs(f, contract, module, count=12, scope=3, seed=0, timeout_ms=4000):
                 for i in idx:
                     t = z3.Select(t, i)
                 if isf:
-                    eprefs.append(t == z3.RealVal(repr(rng.choice(FLOAT_POOL))))
+                    eprefs.append(t == z3.RealVal(repr(rng.choice(fpool))))
                 else:
                     eprefs.append(t == rng.choice([0, 1, 0, 1, 2, S, -1]))
         rng.shuffle(eprefs)
@@ -719,7 +721,7 @@ def run_layer(jobs, src_dir, tier="quick", seed=0, workers=10, only=None, extra=
            and (only is None or j.tag in only)]
     if not sel:
         return []
-    count = 10 if tier == "quick" else 40
+    count = 16 if tier == "quick" else 96
     tasks = [(j, src_dir, (max(4, count // 2) if getattr(j, "only_kinds", None) else count), seed, (extra or {}).get(j.tag, ()))
              for j in sel]
     if len(tasks) == 1:
